@@ -1,7 +1,7 @@
 //! C16: world reactors -- shared system, per-entity local data.
 
 use crate::es::*;
-use crate::universe::{EvA, Pl, CA, RA};
+use crate::universe::{EvA, EvB, Pl, CA, RA};
 use bevy::prelude::*;
 use bevy_cobweb::prelude::*;
 use bevy_cobweb::verif as hooks;
@@ -33,6 +33,13 @@ pub enum Op16
     WRemoveBroadcast,
     WRemoveEntityMutation(u8),
     WRun,
+    /// Second world reactor (registered with *starting triggers* broadcast<EvB> + resource mutation, before the
+    /// plugin is added) and a plain reactor added with `App::add_reactor(broadcast<EvB>)`.
+    FireBroadcastB,
+    FireResource,
+    W2AddB,
+    W2RemoveB,
+    W2RemoveResource,
 }
 
 pub fn all_ops16() -> Vec<Op16>
@@ -56,6 +63,11 @@ pub fn all_ops16() -> Vec<Op16>
     v.push(Op16::FireBroadcast);
     v.push(Op16::WRemoveBroadcast);
     v.push(Op16::WRun);
+    v.push(Op16::FireBroadcastB);
+    v.push(Op16::FireResource);
+    v.push(Op16::W2AddB);
+    v.push(Op16::W2RemoveB);
+    v.push(Op16::W2RemoveResource);
     v
 }
 
@@ -67,6 +79,10 @@ pub enum Rec16
     Entity(u8, i32, u32),
     /// World reactor run: which reader had data: 0 none (manual), 1 broadcast, 2 mutation(entity index)
     World(u8, i32),
+    /// Second world reactor: 1 broadcast<EvB>, 2 resource mutation, 0 nothing readable
+    World2(u8),
+    /// The plain app-level reactor (broadcast<EvB>): payload id read
+    Plain(u32),
 }
 
 thread_local!
@@ -126,6 +142,27 @@ impl WorldReactor for WR
     }
 }
 
+struct WR2;
+impl WorldReactor for WR2
+{
+    type StartingTriggers = (BroadcastTrigger<EvB>, ResourceMutationTrigger<RA>);
+    type Triggers = BroadcastTrigger<EvB>;
+    fn reactor(self) -> SystemCommandCallback
+    {
+        SystemCommandCallback::new(|b: BroadcastEvent<EvB>| {
+            // a resource mutation carries no data: a run without a readable broadcast is the resource reaction
+            let rec = if b.try_read().is_ok() { Rec16::World2(1) } else { Rec16::World2(2) };
+            LOG.with(|l| l.borrow_mut().push(rec));
+        })
+    }
+}
+
+fn plain_reactor(b: BroadcastEvent<EvB>)
+{
+    let p = b.try_read().map(|e| e.0.0).unwrap_or(u32::MAX);
+    LOG.with(|l| l.borrow_mut().push(Rec16::Plain(p)));
+}
+
 //-------------------------------------------------------------------------------------------------------------------
 // reference model
 
@@ -142,11 +179,14 @@ pub struct Model16
     pub w_broadcast: u8,
     pub w_entmut: [u8; N_ENTS],
     pub adds: u32,
+    pub w2_b: u8,
+    pub w2_res: u8,
+    pub payloads: u32,
 }
 
 impl Model16
 {
-    pub fn new() -> Self { Model16{ alive: [true; N_ENTS], has_comp: [true; N_ENTS], ..Default::default() } }
+    pub fn new() -> Self { Model16{ alive: [true; N_ENTS], has_comp: [true; N_ENTS], w2_b: 1, w2_res: 1, ..Default::default() } }
 
     /// Applies an op; returns the expected run records (as a sorted multiset).
     pub fn apply(&mut self, op: Op16) -> Vec<Rec16>
@@ -201,6 +241,7 @@ impl Model16
             Op16::FireEntityEvent(e) =>
             {
                 let ei = e as usize;
+                self.payloads += 1;
                 if self.alive[ei]
                 {
                     for _ in 0..self.regs[0][ei][1]
@@ -225,7 +266,17 @@ impl Model16
                     }
                 }
             }
-            Op16::FireBroadcast => { for _ in 0..self.w_broadcast { out.push(Rec16::World(1, -1)); } }
+            Op16::FireBroadcast => { self.payloads += 1; for _ in 0..self.w_broadcast { out.push(Rec16::World(1, -1)); } }
+            Op16::FireBroadcastB =>
+            {
+                self.payloads += 1;
+                for _ in 0..self.w2_b { out.push(Rec16::World2(1)); }
+                out.push(Rec16::Plain(self.payloads));
+            }
+            Op16::FireResource => { for _ in 0..self.w2_res { out.push(Rec16::World2(2)); } }
+            Op16::W2AddB => { self.w2_b += 1; }
+            Op16::W2RemoveB => { if self.w2_b > 0 { self.w2_b -= 1; } }
+            Op16::W2RemoveResource => { if self.w2_res > 0 { self.w2_res -= 1; } }
             Op16::Despawn(e) =>
             {
                 let ei = e as usize;
@@ -255,6 +306,7 @@ impl Model16
             // keep registration multiplicities small
             Op16::Add(r, e) => self.regs[(r - 1) as usize][e as usize].iter().all(|c| *c < 2),
             Op16::WAdd(e) => self.w_broadcast < 2 && self.w_entmut[e as usize] < 2,
+            Op16::W2AddB => self.w2_b < 2,
             Op16::Despawn(e) => self.alive[e as usize],
             _ => true,
         }).collect()
@@ -276,6 +328,9 @@ fn mutate_sys(In(e): In<Entity>, mut c: Commands, mut rm: ReactiveMut<CA>)
 pub fn run16(hist: &[Op16]) -> StepResult<Key16>
 {
     let mut app = App::new();
+    // registered before the plugin is added: the app extension prepares what it needs by itself
+    app.add_world_reactor_with(WR2, (broadcast::<EvB>(), resource_mutation::<RA>()));
+    app.add_reactor(broadcast::<EvB>(), plain_reactor);
     app.add_plugins(ReactPlugin);
     app.world_mut().insert_react_resource(RA(0));
     app.add_world_reactor(WR).add_entity_reactor(ER1).add_entity_reactor(ER2);
@@ -291,6 +346,7 @@ pub fn run16(hist: &[Op16]) -> StepResult<Key16>
     let mut violations: Vec<(String, String)> = Vec::new();
     let mut stop = false;
     let mut payload = 0u32;
+    let w2_sys = hooks::world_reactor_system::<WR2>(app.world()).map(|s| *s);
 
     for (k, op) in hist.iter().enumerate()
     {
@@ -366,6 +422,11 @@ pub fn run16(hist: &[Op16]) -> StepResult<Key16>
                 Op16::FireEntityEvent(e) => { payload += 1; let p = payload; let ent = ents[e as usize]; world.react(|rc| rc.entity_event(ent, EvA(Pl(p)))); }
                 Op16::FireInsertion(e) => { let ent = ents[e as usize]; world.react(|rc| rc.insert(ent, CA(0))); }
                 Op16::FireBroadcast => { payload += 1; let p = payload; world.react(|rc| rc.broadcast(EvA(Pl(p)))); }
+                Op16::FireBroadcastB => { payload += 1; let p = payload; world.broadcast(EvB(Pl(p))); }
+                Op16::FireResource => { world.syscall((), |mut c: Commands, mut r: ReactResMut<RA>| { r.get_mut(&mut c).0 ^= 1; }); }
+                Op16::W2AddB => { world.syscall((), |mut c: Commands, reactor: Reactor<WR2>| { reactor.add(&mut c, broadcast::<EvB>()); }); }
+                Op16::W2RemoveB => { world.syscall((), |mut c: Commands, reactor: Reactor<WR2>| { reactor.remove(&mut c, broadcast::<EvB>()); }); }
+                Op16::W2RemoveResource => { world.syscall((), |mut c: Commands, reactor: Reactor<WR2>| { reactor.remove(&mut c, resource_mutation::<RA>()); }); }
                 Op16::Despawn(e) => { world.try_despawn(ents[e as usize]); }
                 Op16::WAdd(e) =>
                 {
@@ -425,7 +486,7 @@ pub fn run16(hist: &[Op16]) -> StepResult<Key16>
         }
         // the reactor systems are never despawned or duplicated
         let snap = hooks::snapshot(world);
-        for (name, sys) in [("world", w_sys), ("entity1", e1_sys), ("entity2", e2_sys)]
+        for (name, sys) in [("world", w_sys), ("entity1", e1_sys), ("entity2", e2_sys), ("world2", w2_sys)]
         {
             let ok = sys.map(|s| snap.system_commands.iter().any(|(e, has)| *e == s && *has)).unwrap_or(false);
             if !ok { violations.push(("reactor-system-gone".into(), format!("after {:?}: the {name} reactor's system no longer exists", op))); stop = true; }
